@@ -153,6 +153,8 @@ def file_case(
     force_all_types: bool = False,
     flavours: Tuple[str, ...] = ("mixed",),
     single_entry_schedules: bool = False,
+    force_window: bool = False,
+    schedule_weight: int = 1,
 ) -> Dict[str, Any]:
     hist = hist or gen.GenCfg(min_steps=3, max_steps=12, max_exchanges=3, max_holders=2)
     country = draw(st.sampled_from(countries))
@@ -212,7 +214,7 @@ def file_case(
     if country == "generic":
         case["long_term_days"] = draw(st.sampled_from([0, 30, 365, 366]))
     methods = COUNTRY_METHODS[country]
-    kind = draw(st.integers(0, 3))
+    kind = min(3, draw(st.integers(0, 2 + schedule_weight)))
     if kind == 0:
         pass  # country default
     elif kind in (1, 2) or not schedules or len(methods) == 1:
@@ -234,7 +236,7 @@ def file_case(
     if country == "jp" and case["lang"] is None:
         case["lang"] = draw(st.sampled_from(COUNTRY_LANGS["jp"]))
     if windows:
-        wkind = draw(st.integers(0, 5))
+        wkind = draw(st.integers(1, 4)) if force_window else draw(st.integers(0, 5))
         first = draw(gen.window_date(all_txs))
         second = draw(gen.window_date(all_txs))
         if wkind == 1 and allow_from:
